@@ -64,7 +64,7 @@ def quiet (cfg : Config) : Expr → Bool
   | .withitem _ ce ov => quiet cfg ce && quiets cfg ov
   | .other _ k ats ks =>
       if k == "Dict" then
-        let nk := (ats.headD "0").toNat?.getD 0
+        let nk := dictNk ats
         quiets cfg ks && okChildren cfg "Dict" "keys" (ks.take nk) && okChildren cfg "Dict" "values" (ks.drop nk)
       else if k == "Slice" then quiets cfg ks
       else if k == "Yield" then quiets cfg ks && okChildren cfg "Yield" "value" ks
@@ -176,17 +176,27 @@ def disjoint (a b : List String) : Bool := a.all fun x => !b.contains x
 /-! ### The residual of a visit is pure
 `resPure cfg e`: after the visit, what is left of `e` in place evaluates without effect
 (everything effectful inside was hoisted into pending statements). -/
+def isWrapperB : Expr → Bool
+  | .noneMarker | .keyword .. | .starred .. | .withitem .. => true
+  | _ => false
+
+/-- the edge is selected for hoisting (plain child) -/
+def selected (cfg : Config) (pk fld : String) (e : Expr) : Bool :=
+  !isTrivial e && shouldTransform cfg pk fld (kindOf e)
+
 mutual
 def resPure (cfg : Config) : Expr → Bool
   | .name .. => true
   | .const .. => true
   | .noneMarker => true
-  | .attr _ v _ _ => resKid cfg "Attribute" "value" v
-  | .subscript _ v s _ => resKid cfg "Subscript" "value" v && resKid cfg "Subscript" "slice" s
-  | .unary _ _ e => resKid cfg "UnaryOp" "operand" e
-  | .binop _ _ l r => resKid cfg "BinOp" "left" l && resKid cfg "BinOp" "right" r
+  | .attr _ v _ _ => selected cfg "Attribute" "value" v || resPure cfg v
+  | .subscript _ v s _ =>
+      (selected cfg "Subscript" "value" v || resPure cfg v) && (selected cfg "Subscript" "slice" s || resPure cfg s)
+  | .unary _ _ e => selected cfg "UnaryOp" "operand" e || resPure cfg e
+  | .binop _ _ l r => (selected cfg "BinOp" "left" l || resPure cfg l) && (selected cfg "BinOp" "right" r || resPure cfg r)
   | .compare _ l ops rs =>
-      resKid cfg "Compare" "left" l && resKids cfg "Compare" "comparators" rs && ops.length == rs.length && ops.length == 1
+      (selected cfg "Compare" "left" l || resPure cfg l) && resKids cfg "Compare" "comparators" rs
+        && ops.length == rs.length && ops.length == 1
   | .seq _ .set es _ => resKids cfg "Set" "elts" es && es.all (!isWrapperB ·)
   | .seq _ .tuple es c => (if c == .store then pureEs es else resKids cfg "Tuple" "elts" es) && es.all (!isWrapperB ·)
   | .seq _ .list es c => (if c == .store then pureEs es else resKids cfg "List" "elts" es) && es.all (!isWrapperB ·)
@@ -198,19 +208,10 @@ def resPure (cfg : Config) : Expr → Bool
 def resPures (cfg : Config) : List Expr → Bool
   | [] => true
   | e :: es => resPure cfg e && resPures cfg es
-/-- an ensured child: hoisted (then a temporary is left in place) or left with a pure residual -/
-def resKid (cfg : Config) (pk fld : String) : Expr → Bool
-  | .noneMarker => true
-  | .keyword _ _ _ v => resKid cfg pk fld v
-  | .starred _ v _ => resKid cfg pk fld v
-  | .withitem .. => false
-  | e => (!isTrivial e && shouldTransform cfg pk fld (kindOf e)) || resPure cfg e
+/-- ensured children: hoisted (then a temporary is left in place) or left with a pure residual -/
 def resKids (cfg : Config) (pk fld : String) : List Expr → Bool
   | [] => true
-  | e :: es => resKid cfg pk fld e && resKids cfg pk fld es
-def isWrapperB : Expr → Bool
-  | .noneMarker | .keyword .. | .starred .. | .withitem .. => true
-  | _ => false
+  | e :: es => (selected cfg pk fld e || resPure cfg e) && resKids cfg pk fld es
 end
 
 end Malt.Anf
@@ -332,7 +333,7 @@ def hazE (cfg : Config) : Expr → List String
   | .withitem _ c v => hazE cfg c ++ hazEs cfg v
   | .other _ k ats ks =>
       if k == "Dict" then
-        let nk := (ats.headD "0").toNat?.getD 0
+        let nk := dictNk ats
         hazEs cfg ks ++
           (if nk ≤ 1 then pairsHaz cfg "Dict" true (tag "keys" (ks.take nk) ++ tag "values" (ks.drop nk))
            else (if ks.all pureE then [] else [H_DICT])
@@ -543,17 +544,43 @@ open Malt.Py
 Expressions: variables, constants, attribute / item loads, calls with positional arguments, unary / binary
 operators, single comparisons, tuple / list / set displays without `*`, and `x := e`. -/
 mutual
+/-- no `:=` inside (outside lambdas / comprehensions, which have their own evaluation) -/
+def noWalrus : Expr → Bool
+  | .namedexpr .. => false
+  | .attr _ v _ _ => noWalrus v
+  | .subscript _ v s _ => noWalrus v && noWalrus s
+  | .call _ f as ks => noWalrus f && noWalruss as && noWalruss ks
+  | .keyword _ _ _ v => noWalrus v
+  | .boolop _ _ vs => noWalruss vs
+  | .unary _ _ e => noWalrus e
+  | .binop _ _ l r => noWalrus l && noWalrus r
+  | .compare _ l _ rs => noWalrus l && noWalruss rs
+  | .ifexp _ t b e => noWalrus t && noWalrus b && noWalrus e
+  | .seq _ _ es _ => noWalruss es
+  | .starred _ v _ => noWalrus v
+  | .withitem _ c v => noWalrus c && noWalruss v
+  | .other _ _ _ ks => noWalruss ks
+  | _ => true
+def noWalruss : List Expr → Bool
+  | [] => true
+  | e :: es => noWalrus e && noWalruss es
+end
+
+/-! The nodes that carry an expression context (attribute, subscript, display) must not contain `:=`:
+the copy made when such a node is hoisted gets Load context everywhere, which would turn the `:=` target
+into a read (finding `walrus_target_context_clobbered_by_hoisted_copy`). -/
+mutual
 def fragE : Expr → Bool
   | .name .. => true
   | .const .. => true
-  | .attr _ v _ _ => fragE v
-  | .subscript _ v s _ => fragE v && fragE s
+  | .attr _ v _ _ => fragE v && noWalrus v
+  | .subscript _ v s _ => fragE v && fragE s && noWalrus v && noWalrus s
   | .call _ f as ks => fragE f && fragEs as && ks.isEmpty
   | .unary _ _ e => fragE e
   | .binop _ _ l r => fragE l && fragE r
   | .compare _ l ops rs => fragE l && fragEs rs && ops.length == 1 && rs.length == 1
-  | .seq _ _ es _ => fragEs es
-  | .namedexpr _ (.name ..) v => fragE v
+  | .seq _ _ es _ => fragEs es && noWalruss es
+  | .namedexpr _ (.name _ _ .store) v => fragE v
   | _ => false
 def fragEs : List Expr → Bool
   | [] => true
@@ -603,5 +630,40 @@ def okTs (cfg : Config) : List Expr → Bool
   | [] => true
   | e :: es => okT cfg e && okTs cfg es
 end
+
+end Malt.Anf
+
+namespace Malt.Anf
+open Malt.Py
+
+/-! Statements and functions of the fragment of `C18_sem_partial` (hazard-freedom `okT` included). -/
+def isNameT : Expr → Bool
+  | .name .. => true
+  | _ => false
+
+def isSingleName : List Expr → Bool
+  | [t] => isNameT t
+  | _ => false
+
+mutual
+def fragS (cfg : Config) : Stmt → Bool
+  | .assign _ ts v => isSingleName ts && fragE v && okT cfg v
+  | .expr _ v => fragE v && okT cfg v
+  | .ret _ vs => (match vs with | [] => true | [v] => fragE v && okT cfg v | _ => false)
+  | .if_ _ t b e => fragE t && okT cfg t && fragSs cfg b && fragSs cfg e
+  | .for_ _ tg it b e _ isAsync => isNameT tg && !isAsync && fragE it && okT cfg it && fragSs cfg b && fragSs cfg e
+  | .pass _ => true
+  | .break_ _ => true
+  | .continue_ _ => true
+  | _ => false
+def fragSs (cfg : Config) : List Stmt → Bool
+  | [] => true
+  | s :: ss => fragS cfg s && fragSs cfg ss
+end
+
+/-- `def f(params): body` without defaults, annotations, decorators; body in the fragment. -/
+def fragFn (cfg : Config) : Stmt → Bool
+  | .functionDef _ _ as b ds rs _ => quiet cfg as && ds.isEmpty && rs.isEmpty && fragSs cfg b
+  | _ => false
 
 end Malt.Anf
